@@ -367,9 +367,13 @@ func checkArgType(
 	}
 }
 
+// The rest parameter of a method defined in ruby source is bound to what it
+// takes. A configured method has no body to read it, and the variable's key is
+// the one that holds the declared parameter type: it stays as declared.
 func doubleAsteriskDefineProcess(
 	m *MethodEvaluator,
 	class string,
+	methodT *base.T,
 	definedArgNames []string,
 	defineArgIdx int,
 	argTs []*base.T,
@@ -395,14 +399,16 @@ func doubleAsteriskDefineProcess(
 		argIdx++
 	}
 
-	base.SetValueT(
-		m.evaluatedObjectT.GetFrame(),
-		class,
-		m.method,
-		definedArgNames[defineArgIdx][2:],
-		asteriskHashT,
-		isStatic,
-	)
+	if !methodT.IsBuiltinMethod() {
+		base.SetValueT(
+			m.evaluatedObjectT.GetFrame(),
+			class,
+			m.method,
+			definedArgNames[defineArgIdx][2:],
+			asteriskHashT,
+			isStatic,
+		)
+	}
 
 	defineArgIdx++
 
@@ -412,6 +418,7 @@ func doubleAsteriskDefineProcess(
 func asteriskDefineProcess(
 	m *MethodEvaluator,
 	class string,
+	methodT *base.T,
 	definedArgNames []string,
 	defineArgIdx int,
 	argTs []*base.T,
@@ -438,14 +445,16 @@ func asteriskDefineProcess(
 	}
 
 	if mustBindCt >= len(positionalArgTs) {
-		base.SetValueT(
-			m.evaluatedObjectT.GetFrame(),
-			class,
-			m.method,
-			definedArgNames[defineArgIdx][1:],
-			asteriskArrayT,
-			isStatic,
-		)
+		if !methodT.IsBuiltinMethod() {
+			base.SetValueT(
+				m.evaluatedObjectT.GetFrame(),
+				class,
+				m.method,
+				definedArgNames[defineArgIdx][1:],
+				asteriskArrayT,
+				isStatic,
+			)
+		}
 
 		defineArgIdx++
 
@@ -462,14 +471,16 @@ func asteriskDefineProcess(
 		argIdx++
 	}
 
-	base.SetValueT(
-		m.evaluatedObjectT.GetFrame(),
-		class,
-		m.method,
-		definedArgNames[defineArgIdx][1:],
-		asteriskArrayT,
-		isStatic,
-	)
+	if !methodT.IsBuiltinMethod() {
+		base.SetValueT(
+			m.evaluatedObjectT.GetFrame(),
+			class,
+			m.method,
+			definedArgNames[defineArgIdx][1:],
+			asteriskArrayT,
+			isStatic,
+		)
+	}
 
 	argIdx++
 	defineArgIdx++
@@ -551,6 +562,7 @@ func checkAndPropagateArgs(
 				doubleAsteriskDefineProcess(
 					m,
 					class,
+					methodT,
 					sortedDfineArgs,
 					defineArgIdx,
 					sortedArgTs,
@@ -577,6 +589,7 @@ func checkAndPropagateArgs(
 				asteriskDefineProcess(
 					m,
 					class,
+					methodT,
 					sortedDfineArgs,
 					defineArgIdx,
 					sortedArgTs,
